@@ -49,14 +49,32 @@ def run_impl(case):
             grids = [np.array(g, dtype=float) for g in case["grids"]]
             ncol = len(case["grids"])
             raw = np.array(case["raw"], dtype=float).reshape(len(case["raw"]), ncol)
-            g0, r0 = [g.copy() for g in grids], raw.copy()
-            out = digitize_data(raw, grids)
+            T = case.get("stack")
+            if T:
+                # a 3-d array (rows, columns, T): column i of every slice is snapped with grid i ("all array shapes");
+                # it is presented to the oracle and the model as the (rows*T, columns) matrix of its cells
+                nrow3 = len(case["raw"]) // T
+                raw_in = np.ascontiguousarray(raw.reshape(nrow3, T, ncol).transpose(0, 2, 1))
+                back = lambda a: np.asarray(a).transpose(0, 2, 1).reshape(nrow3 * T, ncol)  # noqa: E731
+            else:
+                raw_in = raw
+                back = lambda a: np.asarray(a)  # noqa: E731
+            g0, r0 = [g.copy() for g in grids], raw_in.copy()
+            out_in = digitize_data(raw_in, grids)
+            if np.shape(out_in) != raw_in.shape:
+                obs["shape"] = list(np.shape(out_in))
+                obs["out"] = []
+                obs["inputs_untouched"] = True
+                obs["by_column"], obs["twice"] = [], []
+                obs["error"] = f"shape: digitize_data returned shape {np.shape(out_in)} for input shape {raw_in.shape}"
+                return obs
+            out = back(out_in)
             obs["out"] = [[float(x) for x in row] for row in out]
             obs["shape"] = list(np.shape(out))
-            obs["inputs_untouched"] = bool(_same_bits(raw, r0) and all(_same_bits(a, b) for a, b in zip(grids, g0)))
+            obs["inputs_untouched"] = bool(_same_bits(raw_in, r0) and all(_same_bits(a, b) for a, b in zip(grids, g0)))
             obs["by_column"] = [[float(x) for x in get_closest(grids[c], raw[:, c].copy())] for c in range(ncol)]
-            again = digitize_data(np.array(out, dtype=float).reshape(raw.shape), grids)
-            obs["twice"] = [[float(x) for x in row] for row in again]
+            again = digitize_data(np.array(out_in, dtype=float), grids)
+            obs["twice"] = [[float(x) for x in row] for row in back(again)]
     except Exception as e:  # noqa: BLE001
         obs["error"] = f"{type(e).__name__}: {e}"
     return obs
@@ -305,7 +323,13 @@ def gen_dg(rng, tol):
         grids.append(g)
         cols.append(col)
     raw = [[cols[c][r] for c in range(ncol)] for r in range(nrow)]
-    return {"kind": "dg", "tol": tol, "cls": "digitize-" + ("float" if tol else "dyadic"), "grids": grids, "raw": raw}
+    case = {"kind": "dg", "tol": tol, "cls": "digitize-" + ("float" if tol else "dyadic"), "grids": grids, "raw": raw}
+    if nrow >= 2 and rng.below(3) == 0:
+        divs = [t for t in (2, 3, 4) if nrow % t == 0]
+        if divs:
+            case["stack"] = rng.choice(divs)          # the same cells arranged as a 3-d array (nrow/T, ncol, T)
+            case["cls"] += "-3d"
+    return case
 
 
 def exhaustive_cases(with_duplicates):
